@@ -518,10 +518,28 @@ def s_fit_peaks(v):
         if k // 4:
             win = win.to(unit={'angstrom': 'nm', 'us': 'ms'}[str(xu)]) if str(xu) in ('angstrom', 'us') else win
         bg, pk = 'linear', 'gaussian'
+    if v >= 16:
+        # data carrying masks (none True / one / two with different True entries inside the fit windows) and extra coords
+        k = v - 16
+        n = da.sizes['x']
+        m1 = np.zeros(n, dtype=bool)
+        m2 = np.zeros(n, dtype=bool)
+        if k % 4 >= 1:
+            m1[[28, 33, 66]] = True
+        if k % 4 >= 2:
+            m2[[30, 31, 63]] = True
+        da.masks['first'] = sc.array(dims=['x'], values=m1)
+        if k % 4 != 1:
+            da.masks['second'] = sc.array(dims=['x'], values=m2)
+        if k % 4 == 3:
+            da.masks['third'] = sc.array(dims=['x'], values=np.roll(m1, 2))
+        da.coords['extra'] = sc.arange('x', n, unit='s')
+        win = sc.scalar(4.0, unit=xu) if k // 4 else sc.array(dims=['x', 'range'], values=[[4.0, 8.0], [10.5, 15.5]], unit=xu)
+        bg, pk = 'linear', 'gaussian'
     return (lambda data, peak_estimates, windows, background, peak: fit_peaks(data, peak_estimates=peak_estimates, windows=windows, background=background, peak=peak)), {'data': da, 'peak_estimates': est, 'windows': win, 'background': bg, 'peak': pk}, str(v)
 
 
-s_fit_peaks.n = 16
+s_fit_peaks.n = 24
 
 
 def s_remove_peaks(v):
